@@ -20,12 +20,15 @@ structure Member where
   toOk   : Bool     -- oracle: address.CheckAddress(tx.To) succeeds
   bl     : Bool     -- oracle: some involved account is blacklisted
   signed : Bool     -- Signature != nil (unsigned transactions are charged 300 extra bytes)
+  eth    : Bool     -- this member's signature type is the eth type
+  nonce  : Int      -- this member's Nonce field
 deriving Repr
 
 /-- A submitted transaction or group: the record that would be pooled plus its members. -/
 structure Sub where
-  tx : Tx
-  ms : List Member
+  tx  : Tx
+  ms  : List Member
+  fwd : Bool   -- oracle: `types.IsForward2MainChainTx` (para-chain node, executor not of this para chain)
 deriving Repr
 
 /-- What the mempool learns from its neighbours. -/
@@ -147,11 +150,18 @@ def nonceCheck (p : Pool) (v : View) (tx : Tx) : Except Err Unit :=
   else if (accTxs p.acc tx.snd).any (fun t => t.id != tx.id && t.nonce == tx.nonce) then .error .acceleration
   else .ok ()
 
+/-- `checkTxs`: a transaction that a para-chain node forwards to the main chain skips the types-level
+check, the tiered fee and every per-member `checkTx` ("转发的交易由主链验证, 平行链忽略基础检查"). -/
+def checkTxs (cfg : Cfg) (a : ACfg) (p : Pool) (s : Sub) (now : Int) : Except Err Unit :=
+  if s.fwd then .ok ()
+  else
+    seq (checkFee a s) <|
+    seq (if a.level then checkLevelFee a p s else .ok ()) <|
+    firstErr (checkMember cfg p now) s.ms
+
 /-- Everything before `PushTx`, in the order of the Go code. -/
 def precheck (cfg : Cfg) (a : ACfg) (p : Pool) (v : View) (s : Sub) (now : Int) : Except Err Unit :=
-  seq (checkFee a s) <|
-  seq (if a.level then checkLevelFee a p s else .ok ()) <|
-  seq (firstErr (checkMember cfg p now) s.ms) <|
+  seq (checkTxs cfg a p s now) <|
   seq (if s.ms.all (·.sigOk) then .ok () else .error .sign) <|
   seq (if s.ms.any (fun m => v.chain.contains m.id) then .error .dupTx else .ok ()) <|
   seq (if !a.noExec && v.execBad.contains s.tx.id then .error .execCheck else .ok ()) <|
